@@ -142,6 +142,7 @@ func (e *Env) RFragOrder() {
 	e.RPhysicalLines()
 	e.RTextExtent()
 	e.RVisitAll()
+	e.RSpacingMax()
 	e.RSearchTransparency()
 	pkg := e.Prog.Pkg(load.PkgDecorator)
 	info := pkg.TypesInfo
@@ -948,6 +949,62 @@ func (e *Env) RVisitAll() {
 		}
 	}
 	e.Run.Floor("R-FRAG", "attachment passes of link over the fragment list", n, 2)
+}
+
+// RSpacingMax (R-FRAG): the Before / After spacing of a node is the largest line break found
+// next to it. Three line breaks in a row are found as an empty-line fragment followed by a
+// new-line fragment; both describe the space between the same two nodes. A store that simply
+// overwrites lets the later, smaller one win: the empty line is lost, import groups separated by
+// two blank lines merge and are sorted as one, a free comment becomes a doc comment. Every store
+// of a non-constant spacing into the decorator's before / after tables is therefore guarded by a
+// comparison of the stored value with the present entry (M[x] < v).
+func (e *Env) RSpacingMax() {
+	pkg := e.Prog.Pkg(load.PkgDecorator)
+	info := pkg.TypesInfo
+	c := e.Sib.Ctx[load.PkgDecorator]
+	n := 0
+	for _, fd := range load.AllFuncDecls(pkg) {
+		if fd.Body == nil || fd.Recv == nil || !strings.HasSuffix(e.Prog.File(fd.Pos()), "decorator-fragment.go") {
+			continue
+		}
+		var stores []*ast.AssignStmt
+		ast.Inspect(fd.Body, func(nd ast.Node) bool {
+			as, ok := nd.(*ast.AssignStmt)
+			if !ok || len(as.Lhs) != 1 || len(as.Rhs) != 1 || as.Tok != token.ASSIGN {
+				return true
+			}
+			ix, ok := ast.Unparen(as.Lhs[0]).(*ast.IndexExpr)
+			if !ok {
+				return true
+			}
+			se, ok := ast.Unparen(ix.X).(*ast.SelectorExpr)
+			if !ok || (se.Sel.Name != "before" && se.Sel.Name != "after") {
+				return true
+			}
+			if _, tn := namedOf(info.TypeOf(se.X)); tn != "fileDecorator" {
+				return true
+			}
+			if tv, ok := info.Types[as.Rhs[0]]; ok && tv.Value != nil {
+				return true // a constant spacing
+			}
+			stores = append(stores, as)
+			return true
+		})
+		for _, as := range stores {
+			n++
+			elem, val := c.ExprStr(as.Lhs[0]), c.ExprStr(as.Rhs[0])
+			pc, okp := pathCond(c, fd.Body.List, as)
+			key := fmt.Sprintf("%s: the spacing of a node is the largest line break found next to it (%s)", load.FuncName(fd), elem)
+			un, dec := unsatWith(pc, "!("+elem+" < "+val+")")
+			if !okp || !dec {
+				e.Run.Undecided("R-FRAG", key, e.Prog.Pos(as.Pos()), "condition not propositional: "+pc)
+				continue
+			}
+			e.Run.Check("R-FRAG", key, e.Prog.Pos(as.Pos()), un,
+				"`"+elem+" = "+val+"` executes when «"+pc+"», which does not require the new spacing to be larger than the present one: of two consecutive line-break fragments between the same nodes (three line breaks in a row: an empty line, then a plain line break) the later one wins and the empty line is lost")
+		}
+	}
+	e.Run.Floor("R-FRAG", "stores of a line-break fragment's spacing into the before / after tables", n, 2)
 }
 
 // RBlankLine (R-SCAN): whether a line of the source is empty is not decided by a fixed byte
